@@ -1,12 +1,15 @@
 /-
   C01, clause "each interpolatory rule on [-1,1] integrates all polynomials up to its nominal
   degree exactly": trapezoid and midpoint (degree ≤ 1), Simpson (degree ≤ 3, odd n), for every
-  admissible n, about the list programs of `Model/OneD.lean` at `K = ℝ`.
+  admissible n, about the constructors as regenerated entry by entry in `Gen/OneDFormulas.lean`
+  (assembled by `Model/OneD.lean`) at `K = ℝ`.
 -/
 import GridVerif.Lemmas.OneD
 import Mathlib.Tactic.FieldSimp
 import Mathlib.Tactic.NormNum
 import Mathlib.Tactic.IntervalCases
+
+set_option linter.unusedSimpArgs false
 
 namespace GridVerif.C01
 open GridVerif GridVerif.OneD Finset Polynomial
@@ -47,15 +50,23 @@ theorem trapezoid_weights_eq (m : ℕ) :
     Trapezoidal.weights (K := ℝ) (m + 1) = (List.range (m + 1)).map fun i =>
       (if i = m then (if i = 0 then (2 / (m : ℝ)) / 2 else 2 / (m : ℝ)) / 2
         else (if i = 0 then (2 / (m : ℝ)) / 2 else 2 / (m : ℝ))) := by
-  unfold Trapezoidal.weights divAt
-  rw [mapIdx_map_range, mapIdx_map_range]
-  simp
+  unfold Trapezoidal.weights
+  simp only [Gen.OneD.Trapezoidal.weightsLen]
+  apply List.map_congr_left
+  intro i _
+  simp only [Gen.OneD.Trapezoidal.weightAt, Gen.OneD.Trapezoidal.weights2,
+    Gen.OneD.Trapezoidal.weights1, Gen.OneD.Trapezoidal.weights0, Nat.add_sub_cancel, Nat.cast_ofNat,
+    Nat.cast_one, Nat.cast_add, mul_one, add_sub_cancel_right]
 
 theorem trapezoid_points_eq (m : ℕ) :
     Trapezoidal.points (K := ℝ) (m + 1) = (List.range (m + 1)).map fun (i : ℕ) =>
       (-1 + 2 * (i : ℝ) / (m : ℝ)) := by
   unfold Trapezoidal.points
-  simp
+  simp only [Gen.OneD.Trapezoidal.pointsLen]
+  apply List.map_congr_left
+  intro i _
+  simp only [Gen.OneD.Trapezoidal.pointAt, Gen.OneD.Trapezoidal.points0,
+    Nat.cast_ofNat, Nat.cast_one, Nat.cast_add, add_sub_cancel_right]
 
 theorem trapezoid_monomial (m : ℕ) (hm : 1 ≤ m) (k : ℕ) (hk : k ≤ 1) :
     quad (Trapezoidal.weights (m + 1)) (Trapezoidal.points (m + 1)) (fun x => x ^ k)
@@ -90,11 +101,18 @@ theorem midpoint_monomial (n : ℕ) (hn : 1 ≤ n) (k : ℕ) (hk : k ≤ 1) :
     quad (MidPoint.weights n) (MidPoint.points n) (fun x => x ^ k) = ∫ x in (-1 : ℝ)..1, x ^ k := by
   have hn0 : (n : ℝ) ≠ 0 := by positivity
   unfold MidPoint.weights MidPoint.points
+  simp only [Gen.OneD.MidPoint.weightsLen, Gen.OneD.MidPoint.pointsLen]
   rw [quad_map_range, integral_pow]
+  simp only [Gen.OneD.MidPoint.weightAt,
+    Gen.OneD.MidPoint.pointAt, Gen.OneD.MidPoint.weights0, Gen.OneD.MidPoint.points0,
+    Nat.cast_ofNat, Nat.cast_one]
   interval_cases k
   · simp; field_simp; norm_num
   · simp only [pow_one]
-    rw [← mul_sum, sum_add_distrib, sum_const, card_range, ← sum_div, sum_range_odd_real]
+    rw [← mul_sum, sum_add_distrib, sum_const, card_range, ← sum_div]
+    have h := sum_range_odd_real n
+    push_cast at h
+    rw [h]
     simp only [Nat.cast_ofNat, Nat.cast_one, nsmul_eq_mul]
     field_simp; ring
 
@@ -153,13 +171,15 @@ theorem simpson_weights_eq (m : ℕ) (hm : 1 ≤ m) :
       (1 / (3 * (m : ℝ))) *
         (simpE i - (if i = 0 then 1 else 0) - (if i = 2 * m then 1 else 0)) := by
   have hm0 : (m : ℝ) ≠ 0 := by positivity
-  unfold Simpson.weights mulSlice
-  rw [mapIdx_map_range, mapIdx_map_range]
+  unfold Simpson.weights
+  simp only [Gen.OneD.Simpson.weightsLen]
   apply List.map_congr_left
   intro i hi
+  simp only [Gen.OneD.Simpson.weightAt, Gen.OneD.Simpson.weights2,
+    Gen.OneD.Simpson.weights1, Gen.OneD.Simpson.weights0]
   have hi' : i < 2 * m + 1 := by simpa using hi
-  have hb : ((2 : ℕ) : ℝ) * ((1 : ℕ) : ℝ) / ((3 * (2 * m + 1 - 1) : ℕ) : ℝ) = 1 / (3 * (m : ℝ)) := by
-    rw [show 3 * (2 * m + 1 - 1) = 6 * m by omega]
+  have hb : ((2 : ℕ) : ℝ) * ((1 : ℕ) : ℝ) / (((3 : ℕ) : ℝ) * (((2 * m + 1 : ℕ) : ℝ) - ((1 : ℕ) : ℝ)))
+      = 1 / (3 * (m : ℝ)) := by
     push_cast; field_simp; ring
   rw [hb]
   unfold simpE
@@ -193,10 +213,11 @@ theorem simpson_points_eq (m : ℕ) (hm : 1 ≤ m) :
       (-1 + (i : ℝ) / (m : ℝ)) := by
   have hm0 : (m : ℝ) ≠ 0 := by positivity
   unfold Simpson.points
+  simp only [Gen.OneD.Simpson.pointsLen]
   apply List.map_congr_left
   intro i _
-  rw [show 2 * m + 1 - 1 = 2 * m by omega]
-  push_cast; field_simp
+  simp only [Gen.OneD.Simpson.pointAt, Gen.OneD.Simpson.points0, Gen.OneD.Simpson.idx0]
+  push_cast; field_simp; ring
 
 theorem simpson_sum (m : ℕ) (c : ℝ) (g : ℕ → ℝ) :
     ∑ i ∈ range (2 * m + 1),
